@@ -111,8 +111,31 @@ fn main() {
             let path = args.get(2).expect("replay file");
             let data = std::fs::read(path).expect("read replay file");
             let rp: Replay = serde_json::from_slice(&data).expect("parse replay file");
-            let rr = run_replay(&rp);
-            let same = rr.violations.iter().any(|v| v.signature == rp.signature);
+            if rp.thorough {
+                plan::THOROUGH.store(true, std::sync::atomic::Ordering::Relaxed);
+            }
+            let mut rr = run_replay(&rp);
+            let mut same = rr.violations.iter().any(|v| v.signature == rp.signature);
+            if !same && rr.harness_error.is_none() && !rr.stuck {
+                // not on its own: does it show after the runs the worker process had made before it?
+                if let Some((from, upto)) = rp.prelude {
+                    if upto > from && upto - from <= 400_000 {
+                        for i in from..upto {
+                            let pl = plan::gen_plan(&rp.property, rp.found_at.0, i);
+                            let r = runner::run_plan(&pl, None);
+                            if r.stuck {
+                                break;
+                            }
+                        }
+                        let rr2 = run_replay(&rp);
+                        if rr2.violations.iter().any(|v| v.signature == rp.signature) {
+                            println!("(not reproduced on its own, but after the {} runs the worker process had made before it: the library keeps state from one call to the next)", upto - from);
+                            rr = rr2;
+                            same = true;
+                        }
+                    }
+                }
+            }
             println!("replay of {}: signature `{}` {}", path, rp.signature, if same { "REPRODUCED" } else { "not reproduced" });
             println!("log hash recorded {:x}, now {:x}{}", rp.log_hash, rr.log_hash, if rp.log_hash == rr.log_hash { " (identical execution)" } else { "" });
             for v in &rr.violations {
